@@ -231,10 +231,9 @@ impl HpoTermDelta {
         let added_parents: Vec<HpoTermId> = rhs_parents.difference(&lhs_parents).copied().collect();
 
         let obsolete = (lhs.is_obsolete(), rhs.is_obsolete());
-        let replacement = (
-            lhs.replaced_by().map(|t| t.id()),
-            rhs.replaced_by().map(|t| t.id()),
-        );
+        // compare the stored replacement ids: `replaced_by()` resolves the id in
+        // the term's own ontology and is `None` whenever that term is absent
+        let replacement = (lhs.replacement_id(), rhs.replacement_id());
 
         if changed_name.0 != changed_name.1
             || !removed_parents.is_empty()
